@@ -343,3 +343,14 @@ for b in (5, 6, 8):
 for name, b in (('c06_free_all', 5), ('c06_free_all', 8), ('c06_reserve_all', 6)):
     ob(f'lower::{name}_b{b}', ['C06'], ['lower::Lower::' + name[4:]], features=('verif_nt2',), kind='config-bounded',
        bound=f'TWO trees: every frame count with {b} bitfields', cover=False, assumes=['bitfield::Bitfield::fill / set by contract (l1a_fill_count_zeros, l1a_set_range)'])
+
+# Slot words (`Locals`) under interference: the first rely/guarantee step above the lower allocator
+# (environment `atomic::verif_contracts::senv`). `rg_locals_demote_any*` and `rg_locals_steal_any` exist in
+# contracts/core/local.rs but are NOT registered: symbolic execution alone needs > 9 minutes / the 15 minute
+# limit with the five atomic stubs over three classes (measured), so they are not counted anywhere.
+ob('local::rg_locals_drain', ['C03', 'C21'], ['local::Locals::drain'], kind='config-bounded', timeout=900,
+   bound='classes with (1,2,0) slots, any slot words, any number of other threads, at most 2 interfering writes (symbolic positions)',
+   assumes=['sequentially consistent atomics', 'slot-word rely: other threads write only well-formed slot words'], cover=False)
+ob('local::rg_locals_get_put_swap', ['C03', 'C21'], ['local::Locals::get', 'local::Locals::put', 'local::Locals::swap'], kind='config-bounded', timeout=900,
+   bound='classes with (1,2,0) slots, any slot words, any number of other threads, at most 2 interfering writes (symbolic positions)',
+   assumes=['sequentially consistent atomics', 'slot-word rely: other threads write only well-formed slot words'], cover=False)
